@@ -642,6 +642,10 @@ class SymExec:
             if ln == 'operator-' and len(vals) == 1:
                 return self.binop('-', o, vals[0])
             callee = tu.callee_fn(e)
+            if callee is not None and self.recognise_search and self.inline_stmt(callee) and tu.cfg(callee) is not None:
+                summ = self.search_summary(callee)
+                if summ is not None:
+                    return self.apply_search(summ, callee, vals)
             if callee is not None and self.own(callee):
                 r = self.inline(callee, o, vals, st, depth)
                 if r is not None:
@@ -656,6 +660,10 @@ class SymExec:
         if name in ('std::begin', 'std::end', 'std::cbegin', 'std::cend') and len(vals) == 1:
             return ('call', 'std::vector::' + CANON_NAME.get(last(name), last(name)), vals[0])
         callee = tu.callee_fn(e)
+        if callee is not None and self.recognise_search and self.inline_stmt(callee) and tu.cfg(callee) is not None:
+            summ = self.search_summary(callee)
+            if summ is not None:
+                return self.apply_search(summ, callee, vals)
         if callee is not None and self.own(callee):
             r = self.inline(callee, None, vals, st, depth)
             if r is not None:
@@ -950,7 +958,7 @@ class SymExec:
                 st.vals.pop(n['id'], None)      # re-evaluation in a later loop iteration
                 val = self.nf(n, st)
                 st.vals[n['id']] = val
-            name = self.call_name(sd, n)
+            name = self.call_name(sd, n) if summ is None else 'std::find_if'   # a recognised search is reported as the algorithm it is
             ev = Event('call', n, nf=val, how=name, conds_n=nc, extra=(sd, obj, args))
             ev.ver = dict(st.ver)
             ev.depth = depth
@@ -983,6 +991,8 @@ class SymExec:
                         continue
                     p = self.place_of(a, st)
                     lv = self.local_var_of(a)
+                    if lv is not None and is_ctor and len(args) == 1 and self._same_class(self.ct(a), sd.get('cty') or self.ct(n)):
+                        continue      # a local / by-value parameter moved into the returned (or a new) object: it dies with it
                     if lv is not None:
                         p = ('var', lv)
                         if lname not in ('move', 'forward'):
@@ -1090,24 +1100,17 @@ class SymExec:
             raise Unsupported('multi-way branch in %s' % fn['q'])
         if len(succ) == 2 and blk.cond:
             cn = self.tu.node(blk.cond)
-            # the value that decides at this block: for `a && b` / `a || b` it is b (a was decided earlier)
-            while True:
-                x = self.tu.strip(cn)
-                if x is not None and x.get('kind') == 'BinaryOperator' and x.get('opcode') in ('&&', '||'):
-                    cn = self.tu.kids(x)[1]
-                else:
-                    break
-            c = truth(self.nf(cn, st))
-            c = self._as_cond(c, cn)
+            c = self._deciding(cn, st)
             v = self.known_value(c, st)
             for j, s in live:
                 pol = (j == 0)
                 if v is not None and v != pol:
                     continue
                 s2 = st.clone() if len(live) > 1 else st
-                base, neg = (c[1], True) if (isinstance(c, tuple) and c and c[0] == 'not') else (c, False)
-                s2.conds.append((base, pol != neg, blk.cond))
-                s2.known[unver(base)] = (pol != neg)
+                if v is None:       # an already decided (or constant) condition adds nothing to the path
+                    base, neg = (c[1], True) if (isinstance(c, tuple) and c and c[0] == 'not') else (c, False)
+                    s2.conds.append((base, pol != neg, blk.cond))
+                    s2.known[unver(base)] = (pol != neg)
                 self._run(fn, g, s, 0, s2, visited, depth, results, True)
         elif len(live) == 1:
             self._run(fn, g, live[0][1], 0, st, visited, depth, results, True)
@@ -1127,15 +1130,15 @@ class SymExec:
         if fid in self._search:
             return self._search[fid]
         self._search[fid] = None
-        saved = (self.inline_stmt, self.recognise_search)
-        self.inline_stmt, self.recognise_search = (lambda f: False), False
+        saved = (self.inline_stmt, self.recognise_search, self._paths)
+        self.inline_stmt, self.recognise_search, self._paths = (lambda f: False), False, {}   # own memo: no helper-following here
         try:
             try:
                 ps = self.paths(fn)
             except Unsupported:
                 return None
         finally:
-            self.inline_stmt, self.recognise_search = saved
+            self.inline_stmt, self.recognise_search, self._paths = saved
         cursor = None
         for p in ps:
             for ev in p.events:
@@ -1229,6 +1232,26 @@ class SymExec:
         if isinstance(nf, tuple):
             return tuple(self._subst(x, m) for x in nf)
         return nf
+
+    def _deciding(self, cn, st):
+        """the condition that decides at a branch: for `a && b` / `a || b` the left operand was decided in an earlier
+        block - if it short-circuited, the whole expression is already known, otherwise the right operand decides"""
+        x = self.tu.strip(cn)
+        if x is not None and x.get('kind') == 'ParenExpr':
+            x = self.tu.strip(self.tu.kids(x)[0])
+        if x is not None and x.get('kind') == 'BinaryOperator' and x.get('opcode') in ('&&', '||'):
+            l, r = self.tu.kids(x)
+            lc = self._deciding(l, st)
+            lv = self.known_value(lc, st)
+            if x['opcode'] == '&&' and lv is False:
+                return ('const', 0)
+            if x['opcode'] == '||' and lv is True:
+                return ('const', 1)
+            return self._deciding(r, st)
+        if x is not None and x.get('kind') == 'UnaryOperator' and x.get('opcode') == '!':
+            return mk_not(self._deciding(self.tu.kids(x)[0], st))
+        c = truth(self.nf(cn, st))
+        return self._as_cond(c, cn)
 
     def _as_cond(self, c, node):
         """conditions of pointer / integer type used directly (`if (p)`) - the cast to bool is implicit in the AST
